@@ -286,7 +286,7 @@ func (h *HttpServer) handleStreamInit(w http.ResponseWriter, r *http.Request) {
 		// The producer's first turn folds into this /init request, so the init
 		// request's custom metadata is what the pipe transports would have
 		// delivered on the first tick batch.
-		finished, err := h.runProduceLoop(ctx, writer, outputSchema, state.(ProducerState), info, stats, auth, transportMeta, callCtx.Cookies, callCtx.stickySink, requestMetadata(req))
+		finished, err := h.runProduceLoopSized(ctx, writer, buf.Len, outputSchema, state.(ProducerState), info, stats, auth, transportMeta, callCtx.Cookies, callCtx.stickySink, requestMetadata(req))
 		handlerErr = err
 		if err == nil && !finished {
 			// Batch limit reached — append continuation token
@@ -665,7 +665,7 @@ func (h *HttpServer) handleProducerContinuation(ctx context.Context, w http.Resp
 	// framework's own transport keys are stripped first — the pipe transports
 	// never put them on a tick, and the stream-state value is a sealed cursor
 	// token that must not surface to user code.
-	finished, err := h.runProduceLoop(ctx, writer, schema, state, info, stats, auth, transportMeta, cookies, sink, stripFrameworkTickMetadata(requestMeta))
+	finished, err := h.runProduceLoopSized(ctx, writer, buf.Len, schema, state, info, stats, auth, transportMeta, cookies, sink, stripFrameworkTickMetadata(requestMeta))
 	if err == nil && !finished {
 		// Batch limit reached — append continuation token
 		token, tokenErr := h.packMethodCursorToken(info.Name, callID, state, auth)
@@ -1016,6 +1016,19 @@ func stripFrameworkTickMetadata(meta arrow.Metadata) arrow.Metadata {
 // client has no opportunity to update mid-turn.
 func (h *HttpServer) runProduceLoop(ctx context.Context, writer *ipc.Writer, schema *arrow.Schema,
 	state ProducerState, info *methodInfo, stats *CallStatistics, auth *AuthContext, transportMeta map[string]string, cookies map[string]string, sink *stickySink, firstTickMeta arrow.Metadata) (bool, error) {
+	return h.runProduceLoopSized(ctx, writer, nil, schema, state, info, stats, auth, transportMeta, cookies, sink, firstTickMeta)
+}
+
+// runProduceLoopSized is runProduceLoop with the size of the response body
+// written so far. bodyLen reports the bytes already in the response buffer
+// the writer appends to (nil: unknown, no wire cap). max_response_bytes is a
+// soft cap for producers: once a flushed cycle has brought the body to the
+// cap, the loop stops exactly as it does at the batch limit and the caller
+// appends a continuation token, so a response overshoots by at most the
+// cycle that crossed the cap and the rest of the stream arrives on later
+// turns.
+func (h *HttpServer) runProduceLoopSized(ctx context.Context, writer *ipc.Writer, bodyLen func() int, schema *arrow.Schema,
+	state ProducerState, info *methodInfo, stats *CallStatistics, auth *AuthContext, transportMeta map[string]string, cookies map[string]string, sink *stickySink, firstTickMeta arrow.Metadata) (bool, error) {
 
 	dataBatches := 0
 	firstTick := true
@@ -1155,6 +1168,11 @@ func (h *HttpServer) runProduceLoop(ctx context.Context, writer *ipc.Writer, sch
 
 		// Check batch limit
 		if h.producerBatchLimit > 0 && dataBatches >= h.producerBatchLimit {
+			return false, nil
+		}
+
+		// Check the wire cap (soft for producers: continue on the next turn)
+		if h.maxResponseBytes > 0 && bodyLen != nil && int64(bodyLen()) >= h.maxResponseBytes {
 			return false, nil
 		}
 	}
